@@ -68,7 +68,7 @@ class Ctx:
 
 
 def _is_event(n: ast.AST) -> bool:
-    return isinstance(n, (ast.Call, ast.Await, ast.Yield, ast.YieldFrom))
+    return isinstance(n, (ast.Call, ast.Await, ast.Yield, ast.YieldFrom, ast.NamedExpr))
 
 
 def has_events(e: ast.AST | None) -> bool:
@@ -307,7 +307,11 @@ class CFG:
         if isinstance(st, ast.While):
             head = self._new("nop", st, loop_head=True)
             self._connect(ends, head)
+            n0 = len(self.nodes)
             t, f = self._cond(st.test, [(head, "n")])
+            for i in range(n0, len(self.nodes)):
+                if self.nodes[i].kind == "test":
+                    self.nodes[i].info["loop_test_of"] = head
             fr = {"type": "loop", "head": head, "breaks": []}
             self._frames.append(fr)
             body_ends = self._stmts(st.body, t)
